@@ -207,9 +207,23 @@ func dumpTable(filenode uint32, info TableInfo, attrs []AttrInfo, reader FileRea
 		cols[i] = Column{Name: a.Name, TypID: a.TypID, Len: a.Len, Num: a.Num, Align: a.Align}
 	}
 
-	t.Rows = ReadRows(data, cols, true)
+	t.Rows = readTableRows(data, cols)
 	t.RowCount = len(t.Rows)
 	return t
+}
+
+// readTableRows returns the visible rows of a table's heap file.  A table without columns
+// (CREATE TABLE t ()) still has rows: each of its tuples is the empty row, which DecodeTuple
+// cannot tell from "nothing to decode" (it answers nil, and ReadRows skips nil)
+func readTableRows(data []byte, cols []Column) []map[string]interface{} {
+	if len(cols) > 0 {
+		return ReadRows(data, cols, true)
+	}
+	var rows []map[string]interface{}
+	for range ReadTuples(data, true) {
+		rows = append(rows, map[string]interface{}{})
+	}
+	return rows
 }
 
 func withDefaults(opts *Options) *Options {
